@@ -1488,44 +1488,27 @@ func c19SQLText(c *Ctx, p *Prog) {
 	const R = "C19/R14"
 	nSel, nCreate := 0, 0
 	for _, fn := range p.Funcs("storage/db") {
+		// every string constant of the package: statements are assembled by concatenation, builders or templates
 		eachInstr(fn, func(_ *ssa.BasicBlock, in ssa.Instruction) {
-			call, ok := in.(*ssa.Call)
-			if !ok {
-				return
-			}
-			co := calleeObj(&call.Call)
-			if co == nil || co.Pkg() == nil {
-				return
-			}
-			switch {
-			case co.Pkg().Path() == "database/sql" && (co.Name() == "Prepare" || co.Name() == "Exec" || co.Name() == "Query" || co.Name() == "QueryRow"):
-				args := callArgs(&call.Call)
-				if len(args) < 2 {
-					return
+			for _, op := range in.Operands(nil) {
+				s, ok := constString(*op)
+				if !ok {
+					continue
 				}
-				for _, s := range stringPieces(args[1]) {
-					up := strings.ToUpper(strings.Join(strings.Fields(s), " "))
-					if !strings.Contains(up, "SELECT") || !strings.Contains(up, "R.CONTENT") {
-						continue
-					}
+				up := strings.ToUpper(strings.Join(strings.Fields(s), " "))
+				if strings.Contains(up, "SELECT") && strings.Contains(up, "R.CONTENT") {
 					nSel++
-					c.Check(!strings.Contains(up, "DISTINCT"), R, fmt.Sprintf("%s:content-select#%d", fnName(fn), nSel), p.pos(call.Pos()), "record contents are selected row by row",
+					c.Check(!strings.Contains(up, "DISTINCT"), R, fmt.Sprintf("%s:content-select#%d", fnName(fn), nSel), p.pos(in.Pos()), "record contents are selected row by row",
 						fmt.Sprintf("the statement selecting record contents is %q: with DISTINCT two stored records whose content is the same bytes come back as one result, while the listing still counts two", truncate(s, 80)))
 				}
-			case co.Pkg().Path() == "text/template" && co.Name() == "Parse":
-				args := callArgs(&call.Call)
-				for _, s := range stringPieces(args[len(args)-1]) {
-					up := strings.ToUpper(s)
-					if !strings.Contains(up, "CREATE TABLE") {
-						continue
-					}
+				if strings.Contains(up, "CREATE TABLE") {
 					nCreate++
-					c.Check(!strings.Contains(up, "COLLATE"), R, fmt.Sprintf("%s:schema#%d", fnName(fn), nCreate), p.pos(call.Pos()), "no column of the schema has a collation",
+					c.Check(!strings.Contains(up, "COLLATE"), R, fmt.Sprintf("%s:schema#%d", fnName(fn), nCreate), p.pos(in.Pos()), "no column of the schema has a collation",
 						"the schema declares a COLLATE clause: label values then compare in the database by that collation and in part.merge bytewise, so a query the merger proved empty (or pruned to a range) matches rows, or matching rows are missed")
 				}
 			}
 		})
 	}
 	c.Floor(R, "statements selecting record contents", nSel, 1)
-	c.Floor(R, "schema templates", nCreate, 1)
+	c.Floor(R, "schema texts", nCreate, 1)
 }
